@@ -11,8 +11,9 @@
      StorageRouting: within 2*massBalanceLimit = 2e-3 m3 per cut on storage (each of the two runs solves its
        step to |mass balance| < massBalanceLimit = 1e-3 m3, so two accepted solutions are at most 2e-3 m3 apart),
        the same volume divided by DeltaT on outflow, + 1e-9 relative;
-     Sacramento with a single unit-hydrograph ordinate and side != 0: 1e-9 relative (the two lower-zone
-       free-water states are stored divided by (1+side) and multiplied back: one rounding per cut).
+     Sacramento with side != 0: 1e-9 relative (the two lower-zone free-water states are stored divided by
+       (1+side) and multiplied back: one rounding per cut); differences beyond that are the unit-hydrograph
+       buffer (known finding) when uh2+..+uh5 > 0 and a VIOLATION when the unit hydrograph has a single ordinate.
    Known, unrepaired defects (known_findings.txt) are reported as KNOWN-FINDING only for that model + trigger and
    only when the faithful Coq kernel shows the same mismatch on the same case:
      key sacramento-uh-buffer  (Sacramento, uh2+uh3+uh4+uh5 > 0)
@@ -81,7 +82,9 @@ def oracle_diff(cs, w, r, ncuts):
             if not feq(a, b, 1e-9, tolS if j == 0 else tolS / dt):
                 return 'state %d whole=%r split=%r' % (j, a, b), 'fail'
         return None, 'tolerance'
-    if m == 'Sacramento' and sum(cs['params'][18:22]) == 0.0 and cs['params'][11] != 0.0:
+    if m == 'Sacramento' and cs['params'][11] != 0.0:
+        # side != 0: the two lower-zone free-water states are stored divided by (1+side) and multiplied back by the
+        # next call -- one rounding per cut ("to floating-point round-off")
         d2 = kresults_agree(w, r, rtol=1e-9, atol=1e-12)
         return (None, 'tolerance') if d2 is None else (d2, 'fail')
     return d, 'fail'
@@ -121,7 +124,8 @@ def evaluate(c, cases, cuts, lines, mlines, mcuts, impl, mod, stats, tag):
             if key is not None:
                 # the faithful model must show the same mismatch on this cut (when it was run on the model side)
                 jm = mcuts[i].index(ks[j]) if ks[j] in mcuts[i] else None
-                if rm is not None and jm is not None and rm[0][0] == 'OK' and kresults_agree(rm[0], rm[1 + jm]) is None:
+                if rm is not None and jm is not None and rm[0][0] == 'OK' and \
+                        oracle_diff(cs, rm[0], rm[1 + jm], len(ks[j]))[0] is None:
                     key = None
             obj = dict(desc, kind='split-mismatch', cuts=ks[j], difference=d, whole_final_states=w[2],
                        split_final_states=r[2] if r[0] == 'OK' else None)
@@ -248,7 +252,7 @@ def main():
                         'storage_routing_tolerance_m3_per_cut': 2 * LIMIT,
                         'known_finding_split_runs': known_run, 'exhaustive': False,
                         'oracle': 'bit-identical outputs and final states (StorageRouting: 2*massBalanceLimit per cut; Sacramento '
-                                  'single-ordinate with side != 0: 1e-9 relative)'},
+                                  'with side != 0: 1e-9 relative)'},
              assumptions=['theorems hold for every Arith instance unless they name RArith; the float witnesses use a stub libm that is '
                           'never called where it differs from the real functions',
                           'model-vs-code comparison uses the tolerance of the model\'s own check (bit-exact for Muskingum, Lag, Storage and '
